@@ -291,7 +291,25 @@ class Base58Check(Driver):
         obs.append(("parse_b58_double_sha256", st, v))
         st2, v2 = call(lambda: (lambda q: (A_ps.parse_b58_double_sha256(q), A_ps.parse_b58_double_sha256(q)))(A_ps.parseable_str(s)))
         obs.append(("parse_b58_double_sha256(cached twice)", st2, v2))
-        n = 4 + extra
+
+        # history: the same parseable_str is first offered to a network that uses ANOTHER checksum function (Groestlcoin) and to
+        # its address parser; the double-SHA256 verdict must be what a fresh str gives
+        def after_other_checksum(q):
+            import contextlib, io
+            from pycoin.networks.registry import network_for_netcode
+            with contextlib.redirect_stdout(io.StringIO()):
+                for oc in ("GRS", "BTC"):
+                    for ep in ("p2pkh", "p2sh", "wif", "address"):
+                        try:
+                            getattr(network_for_netcode(oc).parse, ep)(q)
+                        except Exception:
+                            pass
+            return A_ps.parse_b58_double_sha256(q)
+        st3, v3 = call(lambda: after_other_checksum(A_ps.parseable_str(s)))
+        if (st3, v3) != obs[2][1:]:
+            return BAD("b58check-shared-str", "parse_b58_double_sha256(fresh str) = %s" % show(*obs[2][1:]),
+                       "after GRS/BTC address parsers saw the same parseable_str: %s" % show(st3, v3), n=6 + extra, clause="b58check-shared-parseable-str", kind=kind)
+        n = 5 + extra
         ref = "%r: %s" % (s[:100], "payload " + want.hex()[:60] if want is not None else "not valid Base58Check")
         if want is None:
             name, st, got = obs[0]
@@ -485,7 +503,7 @@ class Grid(Driver):
                     yield dict(fam="grid", hrp=hrp, ver=ver, fill=f)
         for hrp in self.bad_hrps:
             yield dict(fam="enc", hrp=hrp)
-        for i in range(6):
+        for i in range(len(self.struct_bases())):
             yield dict(fam="struct", i=i)
         yield dict(fam="shape")
 
@@ -493,7 +511,9 @@ class Grid(Driver):
         p20 = self.prog(20, "seed")
         p32 = self.prog(32, "seed")
         return [("bc", RB.segwit_encode("bc", 0, p20)), ("tb", RB.segwit_encode("tb", 1, p32)), ("a", "a12uel5l"), ("a", "a1lqfn3a"),
-                ("abcdef", "abcdef1qpzry9x8gf2tvdw0s3jn54khce6mua7lmqqqxw"), ("split", "split1checkupstagehandshakeupstreamerranterredcaperredlc445v")]
+                ("abcdef", "abcdef1qpzry9x8gf2tvdw0s3jn54khce6mua7lmqqqxw"), ("split", "split1checkupstagehandshakeupstreamerranterredcaperredlc445v"),
+                # all upper-case strings containing K (U+212A KELVIN SIGN lower-cases to the ASCII letter k)
+                ("bc", "BC1QW508D6QEJXTDG4Y5R3ZARVARY0C5XW7KV8F3T4"), ("abcdef", "abcdef1qpzry9x8gf2tvdw0s3jn54khce6mua7lmqqqxw".upper())]
 
     def execute(self, unit):
         fam = unit["fam"]
